@@ -277,11 +277,13 @@ def check_leaf_loop(ctx):
             if not ok_h:
                 raise AnalysisError(f"C08.3: the leaf is handed to `{helper.qualname}`, in which the application of the leaf predicate to the leaf was not recognised")
     for n, c in checks:
-        if n.kind == "stmt" and isinstance(n.ast, ast.Assign) and len(n.ast.targets) == 1 and isinstance(n.ast.targets[0], ast.Name) and n.ast.value is c:
+        is_plain = n.kind == "stmt" and isinstance(n.ast, ast.Assign) and len(n.ast.targets) == 1 and isinstance(n.ast.targets[0], ast.Name) and n.ast.value is c
+        is_ann = n.kind == "stmt" and isinstance(n.ast, ast.AnnAssign) and isinstance(n.ast.target, ast.Name) and n.ast.value is c  # `ok: bool = check(leaf)`
+        if is_plain or is_ann:
             # `ok = check(leaf)` ... `if not ok: return False`: followed on the CFG for both results
             from ..absim import eval_bool, simulate
 
-            var = n.ast.targets[0].id
+            var = n.ast.targets[0].id if is_plain else n.ast.target.id
             nxt = [s_ for k_, s_ in n.succ if k_ == "n"]
             need(len(nxt) == 1, "C08.3: the statement holding the leaf check has no unique successor")
 
@@ -499,6 +501,13 @@ def check_flatten_flag(ctx):
     dom = g.dominators()
     for fn_ in flat_nodes:
         if not any(s_.id in dom[fn_.id] for s_ in set_nodes):
+            # inside a `with` of a context manager of the package that this rule does not know as a setter: what its __enter__ does is not followed
+            for w_ in ast.walk(f.node):
+                if isinstance(w_, ast.With) and any(x_ is fn_.ast or any(y_ is fn_.ast for y_ in ast.walk(x_)) for x_ in w_.body):
+                    for it_ in w_.items:
+                        if isinstance(it_.context_expr, ast.Call) and m.resolve_call(f, it_.context_expr).kind != "ext":
+                            raise AnalysisError(f"C08.7: the tree is flattened inside `with {short(it_.context_expr, 40)}:`; whether that context manager sets (and clears) the "
+                                                "flatten-mode flag is not followed")
             ctx.bad("C08.7", f, fn_.ast, "the tree is flattened without the flatten-mode flag having been set: array leaf types would run full shape checks (binding axes, "
                     "evaluating '?' labels) while jax is still deciding what the leaves are")
         else:
